@@ -27,7 +27,7 @@ import (
 //           names the innermost core frame of the dominant allocation site
 //           (heap profile of one more solo run).
 //   cpu:    per-call thread CPU time (getrusage(RUSAGE_THREAD), goroutine
-//           locked to its thread); bound = max(20 ms, 10^4 * c * (len+64))
+//           locked to its thread); bound = max(100 ms, 10^4 * c * (len+64))
 //           with c the per-byte cost measured on the valid inputs of the same
 //           entry point in the same run; confirmed by a solo re-run, otherwise
 //           inconclusive.
@@ -35,7 +35,7 @@ import (
 const (
 	allocSlack   = 1 << 20
 	allocPerByte = 1024
-	cpuFloorNs   = 20_000_000
+	cpuFloorNs   = 100_000_000
 	cpuMargin    = 10_000
 )
 
@@ -142,7 +142,9 @@ func panicKind(msg string) string {
 		return "index-out-of-range"
 	case strings.Contains(msg, "nil pointer") || strings.Contains(msg, "nil map"):
 		return "nil-deref"
-	case strings.Contains(msg, "overflow") || strings.Contains(msg, "underflow"):
+	case strings.Contains(msg, "underflow"):
+		return "underflow"
+	case strings.Contains(msg, "overflow"):
 		return "overflow"
 	case strings.Contains(msg, "divide by zero") || strings.Contains(msg, "division by zero"):
 		return "divide-by-zero"
@@ -223,9 +225,15 @@ func (f *feeder) add(class, sub string, data []byte) {
 		f.m.b.Count("cases_skipped_after_confirmed_violation_of_same_entry_class_sub", 1)
 		return
 	}
+	// windows are small in bytes (an input of 16 KiB or more is measured alone), and a window is
+	// bisected as soon as its allocation exceeds the bound of its SHORTEST input (see window), so that
+	// the allowance of long harmless neighbours cannot mask an offender
+	if len(data) >= windowBytes {
+		f.flush()
+	}
 	f.win = append(f.win, tcase{data: data, class: class, sub: sub, ord: f.m.ord})
 	f.tot += len(data)
-	if len(f.win) >= 64 || f.tot >= 2<<20 {
+	if len(f.win) >= 64 || f.tot >= windowBytes {
 		f.flush()
 	}
 }
@@ -246,7 +254,10 @@ var reExpToken = regexp.MustCompile(`(^|[^0-9a-zA-Z])[0-9.]+[eEpP][+-]?[0-9]{3,}
 // a text input that contains a number token with a large exponent is an
 // "exponent" attack whichever generator produced it.
 func category(t *target, c *tcase) string {
-	if t.kind == "text" && len(c.data) < 1<<16 && reExpToken.Match(c.data) {
+	if t.kind == "bin" {
+		return "wire" // whichever mutation produced the bytes: the finding is the decoder's allocation site
+	}
+	if len(c.data) < 1<<16 && reExpToken.Match(c.data) {
 		return "exponent"
 	}
 	return c.class
@@ -260,6 +271,8 @@ func skipSig(t *target, class, sub string, data []byte) string {
 }
 
 var debugSlow = os.Getenv("C10_DEBUG") != ""
+
+const windowBytes = 16 << 10
 
 const slowCallNs = 100_000_000 // a call this slow ends its window early (see window)
 
@@ -299,11 +312,6 @@ func (m *mon) window(f *feeder, cs []tcase) {
 	rest := cs[done:]
 	cs = cs[:done]
 	m.journaled += done
-	total := 0
-	for i := range cs {
-		total += len(cs[i].data)
-	}
-
 	b.tick()
 	b.Eval(len(cs))
 	b.Count("alloc_batches_measured", 1)
@@ -340,18 +348,14 @@ func (m *mon) window(f *feeder, cs []tcase) {
 			m.solo(t, &cs[i], cpu[i])
 		}
 	}
-	if alloc > allocBound(total) {
+	if len(cs) > 0 && alloc > allocBound(minLen(cs)) {
 		b.Count("alloc_windows_over_bound_bisected", 1)
 		remaining := m.unjudged(t, cs)
 		switch {
 		case len(remaining) == len(cs):
 			m.bisect(t, remaining) // the window measurement stands
 		case len(remaining) > 0:
-			n := 0
-			for i := range remaining {
-				n += len(remaining[i].data)
-			}
-			if m.quiet(t, remaining) > allocBound(n) {
+			if m.quiet(t, remaining) > allocBound(minLen(remaining)) {
 				m.bisect(t, remaining)
 			}
 		}
@@ -369,6 +373,19 @@ func (m *mon) window(f *feeder, cs []tcase) {
 			m.window(f, keep)
 		}
 	}
+}
+
+// minLen is the length of the shortest input of a window: if any single input of the window is over
+// ITS bound (1 MiB + 1024*len), the window total is over allocBound(minLen), so triggering on that
+// never misses an offender.
+func minLen(cs []tcase) int {
+	n := len(cs[0].data)
+	for i := range cs {
+		if len(cs[i].data) < n {
+			n = len(cs[i].data)
+		}
+	}
+	return n
 }
 
 // quiet re-runs cases (already executed once without a process death) and
@@ -411,11 +428,7 @@ func (m *mon) bisect(t *target, cs []tcase) {
 		if len(half) == 0 {
 			continue
 		}
-		n := 0
-		for i := range half {
-			n += len(half[i].data)
-		}
-		if a := m.quiet(t, half); a > allocBound(n) {
+		if a := m.quiet(t, half); a > allocBound(minLen(half)) {
 			m.bisect(t, half)
 		}
 	}
@@ -518,6 +531,7 @@ func topDelta(before, after map[[32]uintptr]int64) string {
 		n++
 	}
 	frames := runtime.CallersFrames(best[:n])
+	first := ""
 	for {
 		fr, more := frames.Next()
 		if strings.HasPrefix(fr.Function, "go.sia.tech/core/") {
@@ -532,13 +546,21 @@ func topDelta(before, after map[[32]uintptr]int64) string {
 			if j := strings.Index(fn, "[...]"); j >= 0 {
 				fn = fn[:j]
 			}
-			return fn
+			if first == "" {
+				first = fn
+			}
+			// the innermost EXPORTED function or method: stable when the dominant allocation moves between a
+			// function and its unexported helpers
+			name := fn[strings.LastIndex(fn, ".")+1:]
+			if name != "" && name[0] >= 'A' && name[0] <= 'Z' {
+				return fn
+			}
 		}
 		if !more {
 			break
 		}
 	}
-	return ""
+	return first
 }
 
 // topAllocSite profiles one run of f (used by the validation workload).
